@@ -50,22 +50,80 @@ pub fn generate(tier: Tier, rng: &mut Rng, sink: &mut dyn FnMut(RtCase)) {
         next_id: 1,
         sink,
     };
-    gen_empty(&mut g);
-    gen_exh(&mut g);
-    gen_intm(&mut g);
-    gen_sinkfail(&mut g);
-    gen_rand(&mut g);
-    gen_wide(&mut g);
-    gen_burst(&mut g);
-    gen_slow(&mut g);
-    gen_conflict(&mut g);
-    gen_sexh(&mut g);
-    gen_srand(&mut g);
-    gen_hist(&mut g);
-    gen_pair(&mut g);
-    gen_spair(&mut g);
-    gen_mpair(&mut g);
-    gen_tokio(&mut g);
+    // a panic while generating one family (the generators run the library to choose events)
+    // must not lose the other families
+    if std::panic::catch_unwind(std::panic::AssertUnwindSafe(|| gen_empty(&mut g))).is_err() {
+        crate::GEN_PANICKED.store(true, std::sync::atomic::Ordering::SeqCst);
+        eprintln!("generator family gen_empty panicked");
+    }
+    if std::panic::catch_unwind(std::panic::AssertUnwindSafe(|| gen_exh(&mut g))).is_err() {
+        crate::GEN_PANICKED.store(true, std::sync::atomic::Ordering::SeqCst);
+        eprintln!("generator family gen_exh panicked");
+    }
+    if std::panic::catch_unwind(std::panic::AssertUnwindSafe(|| gen_intm(&mut g))).is_err() {
+        crate::GEN_PANICKED.store(true, std::sync::atomic::Ordering::SeqCst);
+        eprintln!("generator family gen_intm panicked");
+    }
+    if std::panic::catch_unwind(std::panic::AssertUnwindSafe(|| gen_sinkfail(&mut g))).is_err() {
+        crate::GEN_PANICKED.store(true, std::sync::atomic::Ordering::SeqCst);
+        eprintln!("generator family gen_sinkfail panicked");
+    }
+    if std::panic::catch_unwind(std::panic::AssertUnwindSafe(|| gen_rand(&mut g))).is_err() {
+        crate::GEN_PANICKED.store(true, std::sync::atomic::Ordering::SeqCst);
+        eprintln!("generator family gen_rand panicked");
+    }
+    if std::panic::catch_unwind(std::panic::AssertUnwindSafe(|| gen_wide(&mut g))).is_err() {
+        crate::GEN_PANICKED.store(true, std::sync::atomic::Ordering::SeqCst);
+        eprintln!("generator family gen_wide panicked");
+    }
+    if std::panic::catch_unwind(std::panic::AssertUnwindSafe(|| gen_burst(&mut g))).is_err() {
+        crate::GEN_PANICKED.store(true, std::sync::atomic::Ordering::SeqCst);
+        eprintln!("generator family gen_burst panicked");
+    }
+    if std::panic::catch_unwind(std::panic::AssertUnwindSafe(|| gen_slow(&mut g))).is_err() {
+        crate::GEN_PANICKED.store(true, std::sync::atomic::Ordering::SeqCst);
+        eprintln!("generator family gen_slow panicked");
+    }
+    if std::panic::catch_unwind(std::panic::AssertUnwindSafe(|| gen_conflict(&mut g))).is_err() {
+        crate::GEN_PANICKED.store(true, std::sync::atomic::Ordering::SeqCst);
+        eprintln!("generator family gen_conflict panicked");
+    }
+    if std::panic::catch_unwind(std::panic::AssertUnwindSafe(|| gen_sexh(&mut g))).is_err() {
+        crate::GEN_PANICKED.store(true, std::sync::atomic::Ordering::SeqCst);
+        eprintln!("generator family gen_sexh panicked");
+    }
+    if std::panic::catch_unwind(std::panic::AssertUnwindSafe(|| gen_srand(&mut g))).is_err() {
+        crate::GEN_PANICKED.store(true, std::sync::atomic::Ordering::SeqCst);
+        eprintln!("generator family gen_srand panicked");
+    }
+    if std::panic::catch_unwind(std::panic::AssertUnwindSafe(|| gen_hist(&mut g))).is_err() {
+        crate::GEN_PANICKED.store(true, std::sync::atomic::Ordering::SeqCst);
+        eprintln!("generator family gen_hist panicked");
+    }
+    if std::panic::catch_unwind(std::panic::AssertUnwindSafe(|| gen_pair(&mut g))).is_err() {
+        crate::GEN_PANICKED.store(true, std::sync::atomic::Ordering::SeqCst);
+        eprintln!("generator family gen_pair panicked");
+    }
+    if std::panic::catch_unwind(std::panic::AssertUnwindSafe(|| gen_spair(&mut g))).is_err() {
+        crate::GEN_PANICKED.store(true, std::sync::atomic::Ordering::SeqCst);
+        eprintln!("generator family gen_spair panicked");
+    }
+    if std::panic::catch_unwind(std::panic::AssertUnwindSafe(|| gen_mpair(&mut g))).is_err() {
+        crate::GEN_PANICKED.store(true, std::sync::atomic::Ordering::SeqCst);
+        eprintln!("generator family gen_mpair panicked");
+    }
+    if std::panic::catch_unwind(std::panic::AssertUnwindSafe(|| gen_tokio(&mut g))).is_err() {
+        crate::GEN_PANICKED.store(true, std::sync::atomic::Ordering::SeqCst);
+        eprintln!("generator family gen_tokio panicked");
+    }
+    if std::panic::catch_unwind(std::panic::AssertUnwindSafe(|| gen_race(&mut g))).is_err() {
+        crate::GEN_PANICKED.store(true, std::sync::atomic::Ordering::SeqCst);
+        eprintln!("generator family gen_race panicked");
+    }
+    if std::panic::catch_unwind(std::panic::AssertUnwindSafe(|| gen_share(&mut g))).is_err() {
+        crate::GEN_PANICKED.store(true, std::sync::atomic::Ordering::SeqCst);
+        eprintln!("generator family gen_share panicked");
+    }
 }
 
 // ---------------------------------------------------------------------------------------------
@@ -166,6 +224,22 @@ fn random_graph(rng: &mut Rng, n_lo: usize, n_hi: usize, accesses: bool) -> (Vec
                 } else {
                     ops.push(Op::L(perm[i], perm[j]));
                 }
+            }
+        }
+    }
+    // legal but unusual call sequences: the same pair given again (same or other kind: the last kind
+    // wins, still one edge), an edge call that is refused (reversed pair / self edge)
+    let edge_ops: Vec<Op> = ops.iter().filter(|o| matches!(o, Op::L(..) | Op::C(..))).cloned().collect();
+    if !edge_ops.is_empty() && rng.chance(1, 3) {
+        for _ in 0..1 + rng.below(2) {
+            match edge_ops[rng.below(edge_ops.len())].clone() {
+                Op::L(a, b) | Op::C(a, b) => match rng.below(4) {
+                    0 => ops.push(Op::L(a, b)),
+                    1 => ops.push(Op::C(a, b)),
+                    2 => ops.push(Op::L(b, a)), // would close a cycle: refused
+                    _ => ops.push(Op::C(a, a)), // self edge: refused
+                },
+                _ => {}
             }
         }
     }
@@ -1637,5 +1711,93 @@ fn gen_tokio(g: &mut Gen) {
                 g.emit("tokio-stream", &ops, Body::S(cfg, vec![SEv::Tokio(hold)]));
             }
         }
+    }
+}
+
+// ---------------------------------------------------------------------------------------------
+// tokio-race: FnRefs dropped by a second OS thread while the consumer polls only when woken
+// (family name starts with `tokio` = not modelled, monitors only)
+// ---------------------------------------------------------------------------------------------
+
+fn gen_race(g: &mut Gen) {
+    let rounds = g.pick(4000, 40000);
+    for k in [2usize, 3, 4, 6] {
+        // fan-in: k predecessors of one function (forward), fan-out read in reverse
+        let fan_in: Vec<(usize, usize)> = (0..k).map(|i| (i, k)).collect();
+        let fan_out: Vec<(usize, usize)> = (1..=k).map(|i| (0, i)).collect();
+        for (edges, rev) in [(fan_in, false), (fan_out, true)] {
+            let ops = plain_ops(k + 1, &edges);
+            let cfg = StreamCfg {
+                rev,
+                int: false,
+                strat: Strat::Non,
+            };
+            g.emit("tokio-race", &ops, Body::S(cfg, vec![SEv::Race(rounds)]));
+        }
+    }
+}
+
+// ---------------------------------------------------------------------------------------------
+// tokio-share: consecutive calls that share ONE InterruptibilityState through `reborrow()`; the first
+// receives the signal, the later ones start on an already interrupted state (monitors only)
+// ---------------------------------------------------------------------------------------------
+
+fn gen_share(g: &mut Gen) {
+    use interruptible::{Interruptibility, InterruptibilityState};
+    let count = g.pick(150, 1500);
+    for k in 0..count {
+        // every third case: the empty graph
+        let (ops, n) = if k % 3 == 2 {
+            (Vec::new(), 0)
+        } else {
+            random_graph(g.rng, 1, 5, false)
+        };
+        let mut graph = must_build(&ops);
+        let strat = [Strat::Fin, Strat::Pn(1), Strat::Pn(0), Strat::Pn(2)][g.rng.below(4)];
+        let strategy = match crate::rt_exec::strategy_of_pub(strat) {
+            Some(s) => s,
+            None => continue,
+        };
+        let (tx, rx) = tokio::sync::mpsc::channel::<interruptible::InterruptSignal>(16);
+        let mut state = InterruptibilityState::new(Interruptibility::new(rx.into(), strategy));
+        let runs_n = 2 + g.rng.below(2);
+        let mut runs = Vec::new();
+        for j in 0..runs_n {
+            let mut cfg = random_call_cfg(g.rng, n, true, &Api::ALL);
+            cfg.with = true;
+            cfg.strat = strat;
+            cfg.imm.clear();
+            let mut evs = vec![ev(CallEvKind::Settle)];
+            {
+                let mut run = CallRun::new_shared(gref(&mut graph, cfg.mutable), &cfg, tx.clone(), state.reborrow());
+                run.apply(&evs[0]);
+                let mut signalled = j > 0;
+                let cap = 6 * n + 12;
+                while evs.len() < cap && !run.ended() && run.status() == Status::Pending {
+                    let in_flight = run.in_flight();
+                    let e = if run.flag() {
+                        ev(CallEvKind::Settle)
+                    } else if !signalled {
+                        signalled = true;
+                        ev(CallEvKind::Interrupt)
+                    } else if in_flight.is_empty() {
+                        break;
+                    } else {
+                        ev(CallEvKind::Complete(in_flight[g.rng.below(in_flight.len())], true))
+                    };
+                    run.apply(&e);
+                    evs.push(e);
+                }
+                if !signalled {
+                    // the run returned at once (empty graph): send the signal after it
+                    let e = CallEv::nosettle(CallEvKind::Interrupt);
+                    run.apply(&e);
+                    evs.push(e);
+                }
+                run.finish();
+            }
+            runs.push(Run::Call(cfg, evs));
+        }
+        g.emit("tokio-share", &ops, Body::H(runs));
     }
 }
